@@ -57,6 +57,10 @@ def p_download(workdir, title="out.png"):
     data = open(os.path.join(workdir, "payload.bin"), "rb").read()
 
     class Resp:
+        status_code = 200
+        import httpx as _httpx
+        headers = _httpx.Headers({"Content-Length": str(len(data)), "Content-Type": "image/png"})      # case-insensitive, as real ones
+
         def raise_for_status(self):
             pass
 
@@ -182,7 +186,7 @@ def p_render_odf(workdir):
 
 
 PRODUCERS = {"status": p_status, "status_big": p_status_big, "zip": p_zip, "download": p_download, "makezip": p_makezip,
-             "mwzip": p_mwzip, "mwzip_keep": p_mwzip_keep, "download_longname": p_download_longname, "render": p_render, "render_odf": p_render_odf}
+             "mwzip": p_mwzip, "mwzip_keep": p_mwzip_keep, "download_longname": p_download_longname, "download_small": p_download, "render": p_render, "render_odf": p_render_odf}
 
 if __name__ == "__main__":
     PRODUCERS[sys.argv[1]](sys.argv[2])
